@@ -1,5 +1,8 @@
 (* specdrv.ml — end-to-end check of C01: regress's first match vs the reference semantics Spec.v. *)
 open Model
+module String = Stdlib.String
+module List = Stdlib.List
+type string = Stdlib.String.t
 open Conv
 
 let split s = List.filter (fun x -> x <> "") (String.split_on_char ' ' s)
